@@ -172,6 +172,8 @@ type hnode struct {
 	commitBody map[int]string  // body hash at delivery
 	batched    bool            // fed with InsertEvent only, passes run separately
 	preBlocks  int             // blocks delivered in an earlier life, before Reset
+	failCommit map[int]bool    // block indexes for which the commit callback reports an error after doing its work
+	failed     int
 }
 
 func newNode(d *dag, id int, cache int, badgerDir string) *hnode {
@@ -200,6 +202,13 @@ func (nd *hnode) commit(b *hg.Block) error {
 	bh, _ := b.Body.Hash()
 	nd.commitBody[b.Index()] = string(bh)
 	nd.applyReceipts(b.RoundReceived(), b.InternalTransactions())
+	if nd.failCommit[b.Index()] {
+		// the application applied the block, then the commit path reports an error (as when
+		// core.commit fails after the application call): nothing may be delivered twice
+		delete(nd.failCommit, b.Index())
+		nd.failed++
+		return fmt.Errorf("injected commit failure after block %d was applied", b.Index())
+	}
 	return nil
 }
 
